@@ -178,6 +178,7 @@ fn finding(which: &str) -> Result<String, String> {
 // failing-input search: deterministic pseudo-random histories over small universes on the REAL collections, each step
 // checked against a reference model and against the executable form of the representation invariant.  Used only to turn a
 // failed / undecided obligation into a concrete failing input; it never decides a property.
+static PAST_INV: std::sync::atomic::AtomicBool = std::sync::atomic::AtomicBool::new(false);
 static HIST: std::sync::Mutex<String> = std::sync::Mutex::new(String::new());
 fn note(h: &str) { if let Ok(mut g) = HIST.lock() { g.clear(); g.push_str(h); } }
 
@@ -253,6 +254,7 @@ fn explore_key(seed: u64, steps: usize, nkeys: i32) -> Result<(), String> {
     let mut model: Vec<(i32, i32, i32)> = vec![]; // (key, exp, val) of everything inserted since the last clear
     let mut time = 0i32;
     let mut hist = String::new();
+    let mut inv_fail: Option<String> = None;
     let mut peak = 0usize;
     let mut vseq = 1000;
     for _ in 0..steps {
@@ -307,7 +309,7 @@ fn explore_key(seed: u64, steps: usize, nkeys: i32) -> Result<(), String> {
             }
         }
         match key_tree_wf(&t) {
-            Err(e) => return Err(format!("[C02,C11{}] {}-> invariant broken: {}", if hist.ends_with("clear(); ") { ",C12" } else { "" }, hist, e)),
+            Err(e) => { let m = format!("[C02,C11{}] {}-> invariant broken: {}", if hist.ends_with("clear(); ") { ",C12" } else { "" }, hist, e); if PAST_INV.load(std::sync::atomic::Ordering::Relaxed) { if inv_fail.is_none() { inv_fail = Some(m); } } else { return Err(m); } }
             Ok(n) => {
                 peak = peak.max(n).max(model.len());
                 if t.store.buffer.len() > 4 * peak + 64 { return Err(format!("[C11] {}-> {} slots allocated for a peak of {} entries", hist, t.store.buffer.len(), peak)); }
@@ -320,6 +322,7 @@ fn explore_key(seed: u64, steps: usize, nkeys: i32) -> Result<(), String> {
     if a != want { return Err(format!("[C07] {}-> tree {:?} expected {:?}", hist, a, want)); }
     if b != want { return Err(format!("[C07,C13] {}-> list {:?} expected {:?}", hist, b, want)); }
     if a.capacity() > 2 * a.len().max(model.len()) + 64 { return Err(format!("[C19] {}-> export capacity {} for {} entries", hist, a.capacity(), model.len())); }
+    if let Some(m) = inv_fail { return Err(m); }
     Ok(())
 }
 
@@ -330,6 +333,7 @@ fn explore_map(seed: u64, steps: usize, nkeys: i32) -> Result<(), String> {
     let mut l = MapList::<i32, i32>::new(0);
     let mut model = std::collections::BTreeMap::<i32, i32>::new();
     let mut hist = String::new();
+    let mut inv_fail: Option<String> = None;
     let mut vseq = 1000;
     for _ in 0..steps {
         let op = rng.below(14);
@@ -382,11 +386,12 @@ fn explore_map(seed: u64, steps: usize, nkeys: i32) -> Result<(), String> {
             }
         }
         match map_tree_wf(&t) {
-            Err(e) => return Err(format!("[C02,C11{}] {}-> invariant broken: {}", if hist.ends_with("clear(); ") { ",C12" } else { "" }, hist, e)),
+            Err(e) => { let m = format!("[C02,C11{}] {}-> invariant broken: {}", if hist.ends_with("clear(); ") { ",C12" } else { "" }, hist, e); if PAST_INV.load(std::sync::atomic::Ordering::Relaxed) { if inv_fail.is_none() { inv_fail = Some(m); } } else { return Err(m); } }
             Ok(n) => { if n != model.len() { return Err(format!("[C04,C11] {}-> {} entries stored, {} expected", hist, n, model.len())); } }
         }
         for (kk, vv) in model.iter() { if t.get_value(*kk) != Some(vv) { return Err(format!("[C04] {}-> key {} lost or altered", hist, kk)); } }
     }
+    if let Some(m) = inv_fail { return Err(m); }
     Ok(())
 }
 
@@ -396,6 +401,7 @@ fn explore_set(seed: u64, steps: usize, nkeys: i32) -> Result<(), String> {
     let mut l = SetList::<SV>::new(0);
     let mut model = std::collections::BTreeMap::<i32, i32>::new();
     let mut hist = String::new();
+    let mut inv_fail: Option<String> = None;
     let mut vseq = 1000;
     for _ in 0..steps {
         let op = rng.below(14);
@@ -448,10 +454,11 @@ fn explore_set(seed: u64, steps: usize, nkeys: i32) -> Result<(), String> {
             _ => { if t.is_empty() != model.is_empty() { return Err(format!("[C05] {}-> is_empty {} with {} entries", hist, t.is_empty(), model.len())); } }
         }
         match set_tree_wf(&t) {
-            Err(e) => return Err(format!("[C02,C11{}] {}-> invariant broken: {}", if hist.ends_with("clear(); ") { ",C12" } else { "" }, hist, e)),
+            Err(e) => { let m = format!("[C02,C11{}] {}-> invariant broken: {}", if hist.ends_with("clear(); ") { ",C12" } else { "" }, hist, e); if PAST_INV.load(std::sync::atomic::Ordering::Relaxed) { if inv_fail.is_none() { inv_fail = Some(m); } } else { return Err(m); } }
             Ok(n) => { if n != model.len() { return Err(format!("[C05,C11] {}-> {} entries stored, {} expected", hist, n, model.len())); } }
         }
     }
+    if let Some(m) = inv_fail { return Err(m); }
     Ok(())
 }
 
@@ -508,6 +515,8 @@ fn explore_seg(seed: u64, steps: usize) -> Result<(), String> {
 }
 
 fn explore(which: &str, seeds: u64, steps: usize) -> Result<u64, String> {
+    let past = PAST_INV.load(std::sync::atomic::Ordering::Relaxed);
+    let mut first_inv: Option<String> = None;
     for seed in 1..=seeds {
         let nkeys = if seed % 4 == 0 { 40 } else { 8 };
         let r = match which {
@@ -517,8 +526,16 @@ fn explore(which: &str, seeds: u64, steps: usize) -> Result<u64, String> {
             "seg" => explore_seg(seed, steps),
             _ => Err("unknown collection".to_string()),
         };
-        if let Err(e) = r { return Err(format!("seed {}: {}", seed, e)); }
+        if let Err(e) = r {
+            if past && e.starts_with("[C02,C11") {
+                // only the invariant is broken in this history: keep looking for a history in which it becomes observable
+                if first_inv.is_none() { first_inv = Some(format!("seed {}: {}", seed, e)); }
+                continue;
+            }
+            return Err(format!("seed {}: {}", seed, e));
+        }
     }
+    if let Some(e) = first_inv { return Err(e); }
     Ok(seeds)
 }
 
@@ -546,13 +563,22 @@ fn main() {
         Some("explore") => {
             let seeds: u64 = args[3].parse().unwrap();
             let steps: usize = args[4].parse().unwrap();
+            if args.get(5).map(|x| x.as_str()) == Some("continue") { PAST_INV.store(true, std::sync::atomic::Ordering::Relaxed); }
             // a panic of the real code (debug assertion, overflow, out-of-bounds) is a failing input too
             let which = args[2].clone();
+            // a panic of the real code (debug assertion, overflow, out-of-bounds / unsafe-precondition check) is a failing input
+            // too; the hook reports it together with the history, also when the panic cannot unwind (the process aborts)
+            std::panic::set_hook(Box::new(|info| {
+                let h = HIST.lock().map(|g| g.clone()).unwrap_or_default();
+                let msg = format!("[C10] {}-> the real code panicked: {}", h, info).replace('\n', " ");
+                println!("{{\"ok\": false, \"counterexample\": {:?}}}", msg);
+                use std::io::Write; let _ = std::io::stdout().flush();
+            }));
             let r = std::panic::catch_unwind(move || explore(&which, seeds, steps));
             match r {
                 Ok(Ok(n)) => println!("{{\"ok\": true, \"histories\": {}}}", n),
                 Ok(Err(e)) => { println!("{{\"ok\": false, \"counterexample\": {:?}}}", e); std::process::exit(1); }
-                Err(_) => { println!("{{\"ok\": false, \"counterexample\": \"the real code panicked during the exploration (see stderr for the history)\"}}"); std::process::exit(1); }
+                Err(_) => { std::process::exit(1); }
             }
         }
         Some("finding") => {
